@@ -132,6 +132,10 @@ func (p *Prog) IsRepoFn(fn *ssa.Function) bool {
 	return pk.Path() == p.ModPath || strings.HasPrefix(pk.Path(), p.ModPath+"/")
 }
 
+func (p *Prog) IsRepoPkg(pk *types.Package) bool {
+	return pk != nil && (pk.Path() == p.ModPath || strings.HasPrefix(pk.Path(), p.ModPath+"/"))
+}
+
 func fnPkg(fn *ssa.Function) *types.Package {
 	for f := fn; f != nil; f = f.Parent() {
 		if f.Pkg != nil {
